@@ -47,7 +47,19 @@ def worker_env():
     return env
 
 
-def run_shards(prop, tier, seed, descs, run_dir):
+def shard_process_state(seed, i):
+    """The interpreter state a host application may have: hash randomisation (odd shards run under a seed of their own, derived from
+    VERIF_SEED and the shard number - code that leans on the order of a set or dict of strings is right under one seed only) and warnings
+    turned into errors / assertions stripped (every fourth shard each).  Even shards keep PYTHONHASHSEED=0."""
+    if os.environ.get('VERIF_PROCESS_STATE', '1') == '0':
+        return {'PYTHONHASHSEED': '0', 'flags': []}
+    hs = '0' if i % 2 == 0 else str((seed * 7919 + i * 104729 + 1) % 4294967295)
+    # every fourth shard runs with assertions stripped (-O: an `assert` that does real work disappears; the harness's own asserts are
+    # self-checks of generated data and are covered by the other shards), every fourth with warnings turned into errors
+    return {'PYTHONHASHSEED': hs, 'flags': ['-W', 'error'] if i % 4 == 3 else (['-O'] if i % 4 == 1 else [])}
+
+
+def run_shards(prop, tier, seed, descs, run_dir, state=None):
     procs = {}
     results = [None] * len(descs)
     pending = list(range(len(descs)))
@@ -62,8 +74,10 @@ def run_shards(prop, tier, seed, descs, run_dir):
             with open(dp, 'w') as f:
                 json.dump(descs[i], f)
             log = open(os.path.join(run_dir, 'log%d.txt' % i), 'w')
-            p = subprocess.Popen([PY, '-B', '-m', 'vmon.worker', prop, tier, str(seed), str(i), dp, op],
-                                 cwd=core.VERIF, env=env, stdout=log, stderr=subprocess.STDOUT)
+            st = state or shard_process_state(seed, i)
+            p = subprocess.Popen([PY, '-B'] + list(st['flags']) + ['-m', 'vmon.worker', prop, tier, str(seed), str(i), dp, op],
+                                 cwd=core.VERIF, env=dict(env, PYTHONHASHSEED=st['PYTHONHASHSEED'], VERIF_SHARD_STATE=json.dumps(st)),
+                                 stdout=log, stderr=subprocess.STDOUT)
             procs[i] = (p, time.time(), op, log)
         time.sleep(0.05)
         for i in list(procs):
@@ -129,7 +143,7 @@ def write_replay(prop, tier, seed, rec, tree):
     digest = hashlib.sha256(json.dumps(rec, sort_keys=True, default=repr).encode()).hexdigest()[:12]
     path = os.path.join(OUT, 'replays', '%s-%s.json' % (prop, digest))
     with open(path, 'w') as f:
-        json.dump({'property': prop, 'tier': tier, 'seed': seed, 'tree': tree,
+        json.dump({'property': prop, 'tier': tier, 'seed': seed, 'tree': tree, 'process_state': rec.get('process_state'), 'context': rec.get('context'),
                    'kind': rec['kind'], 'case': rec['case'], 'detail': rec['detail']}, f, indent=1, default=repr)
     return path
 
@@ -251,7 +265,7 @@ def replay(path):
     os.makedirs(run_dir, exist_ok=True)
     try:
         descs = [{'replay': True, 'case': rep['case']}]
-        results = run_shards(prop, rep.get('tier', 'quick'), rep.get('seed', 0), descs, run_dir)
+        results = run_shards(prop, rep.get('tier', 'quick'), rep.get('seed', 0), descs, run_dir, state=rep.get('process_state'))
         m = merge(results)
     finally:
         shutil.rmtree(run_dir, ignore_errors=True)
